@@ -35,7 +35,7 @@ ASSUMPTIONS = [
 
 
 def bounds(tier):
-    return {"N": 2, "faults_per_run": 1, "entries": ["marginal", "rejection", "iterative"], "src": ["user file name", "JokerSamples object (temp cache)", "in_memory"],
+    return {"N": 2, "faults_per_run": "1 (quick), <= 2 (thorough)", "entries": ["marginal", "rejection", "iterative"], "src": ["user file name", "JokerSamples object (temp cache)", "in_memory"],
             "crash_points": "every environment call of the run (symbolic index)"}
 
 
@@ -45,6 +45,11 @@ def shapes(tier):
         for src in ("filename", "object", "inmem"):
             for nb in ((None,) if tier == "quick" and src != "object" else (None, 2)):
                 out.append({"entry": entry, "src": src, "n_batches": nb, "pool": 2 if nb is None else 1, "N": 2})
+    if tier == "thorough":
+        # two crash points in one run (the second one after the first, e.g. inside the clean-up it triggers)
+        for entry in ("marginal", "rejection", "iterative"):
+            for src in ("filename", "object"):
+                out.append({"entry": entry, "src": src, "n_batches": None, "pool": 1, "N": 2, "faults": 2})
     return out
 
 
@@ -69,6 +74,11 @@ def _harness(S, shape):
     core.assume(fault_at <= 80)
     S.reset(fault_at)
     w = S.w
+    if shape.get("faults", 1) == 2:
+        f2 = core.integer("fault_at2")
+        core.assume(f2 > fault_at)
+        core.assume(f2 <= 90)
+        w.fault_at2 = f2
     N = shape["N"]
     lib, lnp = S.library(N, with_lnp=True)
     S.as_file(lib, lnp)            # the user's file (exists in every shape; only used when src == filename)
@@ -84,6 +94,8 @@ def _harness(S, shape):
     except Exception as e:
         first["raised"] = e
     first["fault"] = w.fault_site
+    first["fault2"] = w.fault_site2
+    w.fault_at2 = None
     first["files"] = sorted(w.files)
     first["log"] = list(w.log)
     first["n_env_calls"] = w.env_calls
@@ -131,7 +143,7 @@ def run_shape(shape, tier):
             fault = f["fault"]
             site = fault[1] if fault else None
             per_site_k = info["sites"][:fault[0]].count(site) if fault else None
-            desc = lambda m: {"fault_site": site, "per_site_index": per_site_k, "global_index": fault[0] if fault else None,
+            desc = lambda m: {"fault_site": site, "per_site_index": per_site_k, "second_fault": (f.get("fault2") or [None, None])[1], "global_index": fault[0] if fault else None,
                               "raised": repr(f["raised"])[:200], "second_raised": repr(s2["raised"])[:200]}
             tag = "%s" % (site or "nofault")
             if fault:
@@ -139,12 +151,13 @@ def run_shape(shape, tier):
                 sink.check(path, "propagates", core.SB(z3.BoolVal(f["raised"] is not None)), site=tag, describe=desc)
             else:
                 sink.check(path, "no_spurious_exception", core.SB(z3.BoolVal(f["raised"] is None)), site=tag, describe=desc)
-            if site != "os.unlink":
+            site2 = f["fault2"][1] if f.get("fault2") else None
+            if site != "os.unlink" and site2 != "os.unlink":
                 leaked = [p for p in f["files"] if p.startswith("/tmpmodel/")]
                 sink.check(path, "no_leaked_cache_file", core.SB(z3.BoolVal(not leaked)), site=tag, describe=lambda m: dict(desc(m), leaked=leaked))
             sink.check(path, "user_file_untouched", core.SB(z3.BoolVal(info["user_ok"] and _user_events_ok(f["log"]) and _user_events_ok(s2["log"]))), site=tag, describe=desc)
             # the next call on the same object works and leaves nothing behind
-            ok2 = s2["raised"] is None and (site == "os.unlink" or not [p for p in s2["files"] if p.startswith("/tmpmodel/")])
+            ok2 = s2["raised"] is None and (site == "os.unlink" or site2 == "os.unlink" or not [p for p in s2["files"] if p.startswith("/tmpmodel/")])
             if ok2:
                 r2 = s2["result"]
                 if shape["entry"] == "marginal":
